@@ -1,6 +1,6 @@
 /- Line-protocol driver for the `monitor` engine (C20). -/
 import TmVerif.Base.Proto
-import TmVerif.Monitor.Model
+import TmVerif.Monitor.ZkLayer
 open TmVerif TmVerif.Proto TmVerif.Monitor
 
 def parsePolicy (s : String) : Policy :=
@@ -27,34 +27,35 @@ def sortPairs (l : List (Nat × Int)) : List (Nat × Int) :=
 def showPairs (l : List (Nat × Int)) : String :=
   showCsv ((sortPairs l).map (fun p => s!"{p.1}:{p.2}"))
 
-def stepLine (s : St) (ws : List String) : St × String :=
+/-- The driver state is the composition ZooKeeper nodes → data watches → monitor state
+    (`TmVerif.Monitor.zstep`): `mon` / `delmon` are node writes / deletions, `reconn` a re-connection. -/
+def stepLine (z : ZSt) (ws : List String) : ZSt × String :=
   match ws with
   | ["mon", n, c, p] =>
     match n.toNat?, c.toNat? with
-    | some n, some c => (setMon s n c (parsePolicy p), "ok")
-    | _, _ => (s, "bad-op")
+    | some n, some c => (zstep z (.put n c (parsePolicy p)), "ok")
+    | _, _ => (z, "bad-op")
   | ["delmon", n] =>
     match n.toNat? with
-    | some n => (delMon s n, "ok")
-    | none => (s, "bad-op")
+    | some n => (zstep z (.del n), "ok")
+    | none => (z, "bad-op")
   | ["sched", n, l] =>
     match n.toNat?, natList? l with
-    | some n, some l => (setSched s n l, "ok")
-    | _, _ => (s, "bad-op")
+    | some n, some l => (zstep z (.other (.setSched n l)), "ok")
+    | _, _ => (z, "bad-op")
   | ["tick", d] =>
     match d.toNat? with
-    | some d => ({ s with now := s.now + d }, "ok")
-    | none => (s, "bad-op")
-  | ["reconn"] =>
-    -- the ZooKeeper connection was re-established and no monitor node changed: the data watches
-    -- deliver nothing (zkwatchers.ExistingDataWatch de-duplicates on the node's mzxid)
-    (s, "ok")
+    | some d => (zstep z (.other (.tick d)), "ok")
+    | none => (z, "bad-op")
+  | ["reconn"] => (zstep z .reconnect, "ok")
   | ["eval", o] =>
-    let (s', r) := reevaluate s (parseOutcomes o)
+    let oc := parseOutcomes o
+    let r := (reevaluate z.st oc).2
+    let z' := zstep z (.other (.eval oc))
     let calls := showCsv (r.calls.map showCall)
     let alerts := showCsv (r.alerts.map (fun p => s!"{p.1}:{p.2}"))
-    let avail := showCsv (s'.mons.map (fun m => s!"{m.name}:{m.avail}"))
-    (s', s!"calls={calls} alerts={alerts} waited={showPairs r.waited} exact={showNats r.exactW} mod={showBool r.modified} susp={showPairs s'.susp} avail={avail}")
-  | _ => (s, "bad-op")
+    let avail := showCsv (z'.st.mons.map (fun m => s!"{m.name}:{m.avail}"))
+    (z', s!"calls={calls} alerts={alerts} waited={showPairs r.waited} exact={showNats r.exactW} mod={showBool r.modified} susp={showPairs z'.st.susp} avail={avail}")
+  | _ => (z, "bad-op")
 
-def main : IO Unit := run stepLine St.init
+def main : IO Unit := run stepLine { st := St.init }
